@@ -68,6 +68,16 @@ pub fn run_case(env: &Env, ctx: &mut Ctx, idx: u64) {
         }
     };
     let path = dir.join("top.sv");
+    // one case in three: the file is afterwards rewritten in place (same path, same length, other contents)
+    // and the whole comparison repeated on the same thread
+    let second: Option<String> = if rng.chance(1, 3) { mutate::same_length_edit(&body, &mut rng) } else { None };
+    let mut rounds = vec![body];
+    if let Some(b2) = second {
+        rounds.push(b2);
+        ctx.count("inputs_rewritten_in_place", 1);
+    }
+    let nrounds = rounds.len();
+    for (round, body) in rounds.into_iter().enumerate() {
     let _ = std::fs::write(&path, &body);
     let mut defines = Vec::new();
     if rng.chance(1, 3) {
@@ -82,11 +92,11 @@ pub fn run_case(env: &Env, ctx: &mut Ctx, idx: u64) {
         _ => vec![dir.clone()],
     };
     ctx.count("inputs", 1);
-    if inc_paths.first() != Some(&dir) {
+    if round == 0 && inc_paths.first() != Some(&dir) {
         ctx.count("inputs_with_unreachable_header", 1);
     }
     ctx.count(&format!("kind:{}", kind), 1);
-    let witness = |d: &str, cfg: &Cfg| Obj::new().s("contents", &body).s("kind", kind).raw("config", &cfg.json()).s("detail", d).done();
+    let witness = |d: &str, cfg: &Cfg| Obj::new().s("contents", &body).s("kind", kind).n("round", round as u64).n("rounds", nrounds as u64).raw("config", &cfg.json()).s("detail", d).done();
     let mut comparisons = 0u64;
     // parse family: all values of ignore_include x allow_incomplete
     for ii in [false, true] {
@@ -151,6 +161,7 @@ pub fn run_case(env: &Env, ctx: &mut Ctx, idx: u64) {
     ctx.nontrivial(hash_strs(&[&body, kind]));
     if ctx.want_sample() {
         ctx.sample(Obj::new().s("contents", &clip(&body, 300)).s("kind", kind).n("comparisons", comparisons).done());
+    }
     }
     let _ = std::fs::remove_dir_all(&dir);
 }
